@@ -37,6 +37,7 @@ CONSTANTS
   HANDSHAKES,    \* TLS handshake outcomes: subset of {"ok","wrongname","untrusted","garbage","stall"}
   CAPS2,         \* capability sets advertised after STARTTLS
   LOGAUTH,       \* subset of BOOLEAN: WithLogAuthData
+  LOGGERS,       \* debug logger implementations: subset of {"capture","std","json"}
   DEV_ImplicitDot, DEV_NoRsetAfterDataReject, DEV_ContinueAfterRsetFail,
   DEV_LeakOnDialError, DEV_QuitFailureLeavesConn, DEV_NoDeadlineInDial,
   DEV_NoopBeforeDeadline, DEV_WindowStaysOpen
@@ -74,7 +75,7 @@ DialChoices == IF DialFaults THEN EnvChoices ELSE {OkChoice}
 AuthChoices == DialChoices \cup (IF DialFaults /\ env.budget > 0 /\ "mal" \in CLASSES /\ cl.mech # "XOAUTH2"
                                  THEN {[c |-> "mal", sh |-> "none"]} ELSE {})
 
-Lost(c) == c \in {"drop", "stall", "garbage"}   \* the connection is unusable afterwards
+Lost(c) == c \in {"drop", "stall"}   \* the connection is unusable afterwards (a garbage line is just a bad reply)
 
 (* what the client stores for a failed step *)
 ErrOf(reason, ch, k, rc) ==
@@ -182,10 +183,10 @@ Reveals(mch, j) == (mch \in {"PLAIN", "XOAUTH2"} /\ j = 0) \/ (mch = "LOGIN" /\ 
 Cfgs ==
   {[op |-> OP, nr |-> nr, enc8 |-> e8, rf |-> rf, caps |-> cs, dsn |-> d, nonoop |-> nn, cs |-> rot,
     policy |-> pol, authtype |-> at, noenc |-> NoEncType(at), hostkind |-> hk, logauth |-> la,
-    debug |-> (at # "NOAUTH"), starttls |-> st, authlist |-> al, hs |-> hs, caps2 |-> c2] :
+    debug |-> (at # "NOAUTH"), logger |-> lg, starttls |-> st, authlist |-> al, hs |-> hs, caps2 |-> c2] :
      nr \in [1..N -> 1..MAXR], e8 \in [1..N -> ENC8], rf \in [1..N -> {"ok"} \cup RENDERKINDS],
      cs \in CAPSETS, d \in DSNS, nn \in NONOOP, rot \in CODESETS, pol \in POLICIES, at \in AUTHTYPES,
-     hk \in HOSTKINDS, la \in LOGAUTH, st \in STARTTLSADV, al \in AUTHLISTS, hs \in HANDSHAKES, c2 \in CAPS2}
+     hk \in HOSTKINDS, la \in LOGAUTH, st \in STARTTLSADV, al \in AUTHLISTS, hs \in HANDSHAKES, c2 \in CAPS2, lg \in LOGGERS}
 
 (* what the server puts into an EHLO reply *)
 Advertised(enc) ==
@@ -339,6 +340,8 @@ AuthMsg ==
           ELSE IF ch.c = "ok" /\ honest = 334 THEN cl' = [cl EXCEPT !.astep = j + 1]
           ELSE IF ch.c = "ok" THEN cl' = [cl EXCEPT !.pc = "dialOK", !.authWin = DEV_WindowStaysOpen /\ @, !.authOver = TRUE]
           ELSE IF Lost(ch.c) THEN cl' = [cl EXCEPT !.pc = "authQuit", !.dead = TRUE]
+          \* an unparsable reply is an error of cmd() itself: Auth returns at once, without "*" or QUIT
+          ELSE IF ch.c = "garbage" THEN cl' = [cl EXCEPT !.pc = "authQuit", !.dead = TRUE]
           ELSE cl' = [cl EXCEPT !.pc = IF cl.mech = "XOAUTH2" THEN "authQuit" ELSE "authAbort"]
   /\ UNCHANGED cfg
 
